@@ -509,6 +509,10 @@ def _generate_once(r, filt, profile):
         sm = model_has_sm(knobs['gyro_model']) or model_has_sm(knobs['accel_model'])
         knobs['increments_given'] = bool(sm or r.random() < 0.6)
         knobs['nominal'] = ['computed', 'reference'][int(r.integers(2))]
+        if not wd['rate_terms'] and r.random() < 0.7:
+            # a straight leg with an idealised nominal trajectory (covariance analysis): the
+            # nominal attitude is the same in every row, bit for bit
+            knobs['nominal'] = 'constant_attitude'
         if profile == 'est' and r.random() < 0.1 and knobs['gyro_model'] is not None:
             # ONE EstimationModel object handed in as both gyro_model and accel_model
             knobs['accel_model'] = knobs['gyro_model']
@@ -609,6 +613,11 @@ def materialise(sc, fence_only=False, fresh_spies=True):
         drop = [i for i in kn.get('increments_dropout') or [] if 0 <= i < len(inc)]
         out['increments_passed'] = inc.drop(inc.index[drop]) if drop else inc
         out['nominal'] = computed if kn.get('nominal') == 'computed' else ref
+        if kn.get('nominal') == 'constant_attitude':
+            nom = ref.copy()
+            for c in ('roll', 'pitch', 'heading'):
+                nom[c] = float(nom[c].iloc[0])
+            out['nominal'] = nom
         out['t_start'] = float(computed.index[0])
         out['t_end'] = float(computed.index[-1])
     return out
@@ -891,6 +900,8 @@ def probes(sc, m, outcome=None):
         hit['measurement_table_not_sorted_by_time'] = 1
     if sc['knobs'].get('increments_dropout'):
         hit['interval_without_increment_rows'] = 1
+    if sc['knobs'].get('nominal') == 'constant_attitude':
+        hit['nominal_attitude_identical_in_consecutive_rows'] = 1
     if abs(a) >= 1e5:
         hit['gps_week_scale_clock'] = 1
     if a < 0:
